@@ -1,7 +1,7 @@
 """Property registry: which contract modules serve which property, and what
 each claim leaves unverified (text copied into every evidence file)."""
 
-ALL_MODULES = ["contracts.c17", "contracts.c12", "contracts.c13", "contracts.c18", "contracts.c09", "contracts.c05", "contracts.c16"]
+ALL_MODULES = ["contracts.c17", "contracts.c12", "contracts.c13", "contracts.c18", "contracts.c09", "contracts.c05", "contracts.c16", "contracts.c04"]
 
 SPECS = {
     "C17": {
@@ -45,5 +45,12 @@ SPECS = {
         "level_note": "Trusted: opaque treatment of plugin objects and of the lowering context in the dispatcher, assumed contracts of is_drop_var / _value_is_graph_connected / require_value_for_var, library context managers do not swallow exceptions. 'Optimizer aborted between transactions leaves an equivalent model' rests on C02, which is not claimed in this revision.",
         "design_ref": "DESIGN.md §4.16",
         "unverified_part": "bind_returned_lowering_values (arity pairing), the ~600 plugin lower() methods themselves (unsupported variants inside a plugin), DimAsValuePlugin's no-origin rejection, fori_loop bound concretisation, partial-optimization equivalence (C02).",
+    },
+    "C04": {
+        "modules": ALL_MODULES,
+        "level_text": "Every method of LowerDimExpr is executed symbolically from its real source and proved to emit a value whose run-time content equals the JAX semantics of its argument (sum of coeff*product of factor**power, floordiv/mod/max/min with Python floor semantics) for an arbitrary binding of the symbols and expressions of any size (recursive contracts, prefix-sum/prefix-product loop invariants); ONNX Div/Mod/... follow the ONNX integer semantics (Div truncates). The memo cache carries the invariant 'every entry denotes the meaning of its key'; that keys of different kinds never collide is a lemma over the key expressions extracted from the code (z3 string theory). The symbol-origin precondition (dims are the declared dims of the value) is a call-site obligation at add_input_for_invar and bind_input.",
+        "level_note": "Trusted: ONNX integer operator semantics (A11, no int64 overflow), the JAX normal form of dimension expressions, per-kind injectivity of str() on expression objects, OriginInv given truthful declared input shapes. _shapes_compatible/_broadcast_shape_dims and the reshape/broadcast plugin lowerings that consume the lowered dimensions are not under contract in this revision.",
+        "design_ref": "DESIGN.md §4.4",
+        "unverified_part": "LowerDimExpr.__call__ (Concat of several dims), dim_as_value plugin, _as_sds_list shared scope, optimizer shape comparisons (_shapes_compatible: C02), plugin lowerings that consume the dimension values, int64 overflow.",
     },
 }
